@@ -489,6 +489,12 @@ func pruneEntries(p geom.Point, entries []entry, minDists []float64) []entry {
 	minMinMaxDist := math.MaxFloat64
 	for i := range entries {
 		minMaxDist := minMaxDist(p, entries[i].bb)
+		// MINMAXDIST is never smaller than MINDIST; cancellation in its
+		// formula for far-away points must not break that, or every entry
+		// (including the one holding the nearest object) could be pruned.
+		if minMaxDist < minDists[i] {
+			minMaxDist = minDists[i]
+		}
 		if minMaxDist < minMinMaxDist {
 			minMinMaxDist = minMaxDist
 		}
